@@ -35,6 +35,162 @@ Proof.
   pose proof (slice_tail (b :: x) y) as H. simpl in H. simpl. rewrite Nat.add_1_r. exact H.
 Qed.
 
+(* ---- facts that need no law about the primitives: Decrypt never panics ---- *)
+Section EciesNoLaws.
+  Variable ec_dh : curve -> bytes -> bytes -> option bytes.
+  Variable ec_oncurve : curve -> bytes -> bytes -> bool.
+  Variable ec_decompress : curve -> bytes -> option bytes.
+  Variable hkdf : hash -> bytes -> bytes -> bytes -> nat -> bytes.
+  Variable gcm_open : bytes -> bytes -> bytes -> bytes -> option bytes.
+  Variable aes_ctr : bytes -> bytes -> bytes -> bytes.
+  Variable hmac_sha256 : bytes -> bytes -> bytes.
+  Variable siv_open : bytes -> bytes -> bytes -> option bytes.
+  Notation PointDecode := (point_decode ec_oncurve ec_decompress).
+  Notation Decapsulate := (ecies_decapsulate ec_dh ec_oncurve ec_decompress hkdf).
+  Notation DemDecrypt := (dem_decrypt gcm_open aes_ctr hmac_sha256 siv_open).
+  Notation Decrypt := (ecies_decrypt ec_dh ec_oncurve ec_decompress hkdf gcm_open aes_ctr hmac_sha256 siv_open).
+
+  Lemma point_decode_never_panics c f e : PointDecode c f e <> Panic.
+  Proof.
+    unfold point_decode. destruct f; try discriminate.
+    - destruct (negb (Nat.eqb _ _)); [discriminate|]. destruct (negb (_ || _)); [discriminate|].
+      destruct (ec_decompress c e); discriminate.
+    - destruct (Nat.eqb_spec (length e) (2 * field_size c + 1)) as [L|]; [|discriminate]. cbn [negb].
+      destruct (negb (N.eqb _ _)); [discriminate|].
+      apply bind_not_panic; [apply slice_not_panic; lia|]. intros x _.
+      apply bind_not_panic; [apply slice_not_panic; lia|]. intros y _.
+      destruct (ec_oncurve c x y); discriminate.
+    - destruct (Nat.eqb_spec (length e) (2 * field_size c)) as [L|]; [|discriminate]. cbn [negb].
+      apply bind_not_panic; [apply slice_not_panic; lia|]. intros x _.
+      apply bind_not_panic; [apply slice_not_panic; lia|]. intros y _.
+      destruct (ec_oncurve c x y); discriminate.
+  Qed.
+
+  Lemma compute_hkdf_never_panics h ikm salt info n : compute_hkdf hkdf h ikm salt info n <> Panic.
+  Proof. unfold compute_hkdf. destruct (Nat.ltb _ _); [discriminate|]. destruct (Nat.ltb _ _); discriminate. Qed.
+
+
+  Lemma decapsulate_never_panics c h f salt info n skR kem : Decapsulate c h f salt info n skR kem <> Panic.
+  Proof.
+    unfold ecies_decapsulate. apply bind_not_panic; [apply point_decode_never_panics|]. intros P HP.
+    apply bind_not_panic.
+    - unfold compute_shared_secret. destruct (negb _); [discriminate|]. destruct (ec_dh c skR P); discriminate.
+    - intros s _. apply compute_hkdf_never_panics.
+  Qed.
+
+  Lemma dem_decrypt_never_panics d key body : DemDecrypt d key body <> Panic.
+  Proof.
+    unfold dem_decrypt.
+    destruct (Nat.eqb_spec (length key) (dem_key_size d)) as [Lk|]; [|discriminate]. cbn [negb].
+    destruct d; try discriminate.
+    1-2: (
+      destruct (Nat.ltb_spec (length body) (12 + 16)) as [|Hl]; [discriminate|];
+      apply bind_not_panic; [apply slice_not_panic; lia|]; intros iv _;
+      apply bind_not_panic; [apply slice_not_panic; lia|]; intros b _;
+      destruct (gcm_open key iv [] b); discriminate).
+    - destruct (siv_open key [] body); discriminate.
+    - simpl in Lk. apply bind_not_panic; [apply slice_not_panic; simpl; lia|]. intros ka _.
+      apply bind_not_panic; [apply slice_not_panic; simpl; lia|]. intros kh _.
+      destruct (Nat.ltb_spec (length body) (16 + dem_tag_size AES128_CTR_HMAC_SHA256)) as [|Hl]; [discriminate|].
+      simpl in Hl.
+      apply bind_not_panic; [apply slice_not_panic; simpl; lia|]. intros payload Hp.
+      apply bind_not_panic; [apply slice_not_panic; simpl; lia|]. intros tag _.
+      destruct (negb (beq _ _)); [discriminate|].
+      destruct (Nat.ltb_spec (length payload) 16) as [|Hl2]; [discriminate|].
+      apply bind_not_panic; [apply slice_not_panic; lia|]. intros iv _.
+      apply bind_not_panic; [apply slice_not_panic; lia|]. intros b _. discriminate.
+    - simpl in Lk. apply bind_not_panic; [apply slice_not_panic; simpl; lia|]. intros ka _.
+      apply bind_not_panic; [apply slice_not_panic; simpl; lia|]. intros kh _.
+      destruct (Nat.ltb_spec (length body) (16 + dem_tag_size AES256_CTR_HMAC_SHA256)) as [|Hl]; [discriminate|].
+      simpl in Hl.
+      apply bind_not_panic; [apply slice_not_panic; simpl; lia|]. intros payload Hp.
+      apply bind_not_panic; [apply slice_not_panic; simpl; lia|]. intros tag _.
+      destruct (negb (beq _ _)); [discriminate|].
+      destruct (Nat.ltb_spec (length payload) 16) as [|Hl2]; [discriminate|].
+      apply bind_not_panic; [apply slice_not_panic; lia|]. intros iv _.
+      apply bind_not_panic; [apply slice_not_panic; lia|]. intros b _. discriminate.
+  Qed.
+
+  Theorem ecies_decrypt_never_panics c h f d salt prefix skR ct info :
+    Decrypt c h f d salt prefix skR ct info <> Panic.
+  Proof.
+    unfold ecies_decrypt. destruct (negb (primitive_supported c f d)); [discriminate|].
+    destruct (Nat.ltb_spec (length ct) (length prefix)) as [|Lc]; [discriminate|].
+    destruct (slice_split (length prefix) ct Lc) as (pf & rest & -> & Lpf & S1 & S2).
+    rewrite S1, S2. cbn [bind]. destruct (negb (beq prefix pf)); [discriminate|].
+    unfold ecies_raw_decrypt. apply bind_not_panic; [apply encoding_size_never_panics|]. intros hs _.
+    destruct (Nat.ltb_spec (length rest) hs) as [|Lr]; [discriminate|].
+    destruct (slice_split hs rest Lr) as (kem & body & -> & Lk & S3 & S4).
+    rewrite S3, S4. cbn [bind].
+    apply bind_not_panic; [apply decapsulate_never_panics|]. intros key _.
+    apply dem_decrypt_never_panics.
+  Qed.
+
+  (* a different output prefix is rejected outright *)
+  Theorem ecies_binding_prefix c h f d salt prefix skR prefix' rest info :
+    length prefix' = length prefix -> prefix' <> prefix ->
+    Decrypt c h f d salt prefix skR (prefix' ++ rest) info = Err.
+  Proof.
+    intros L Hne. unfold ecies_decrypt. destruct (negb (primitive_supported c f d)); [reflexivity|].
+    destruct (Nat.ltb_spec (length (prefix' ++ rest)) (length prefix)) as [|_]; [reflexivity|].
+    rewrite <- L. rewrite slice_head. cbn [bind].
+    assert (E : beq prefix prefix' = false) by (apply beq_false; congruence).
+    rewrite E. reflexivity.
+  Qed.
+End EciesNoLaws.
+
+Section PointFormats.
+  Variable ec_oncurve : curve -> bytes -> bytes -> bool.
+  Variable ec_decompress : curve -> bytes -> option bytes.
+  Hypothesis ec_decompress_compress : forall c x y,
+    ec_oncurve c x y = true -> length x = field_size c -> length y = field_size c ->
+    ec_decompress c ((if N.odd (last y 0) then 3 else 2) :: x) = Some (4 :: x ++ y).
+
+  (* ---- point formats ---- *)
+  Lemma point_encode_length c f P e : (point_encode ec_oncurve) c f P = Ok e ->
+    length P = (1 + 2 * field_size c)%nat -> hd 0 P = 4 -> encoding_size c f = Ok (length e).
+  Proof.
+    intros H L H4. destruct (point_shape c P L H4) as (_ & Lx & Ly).
+    unfold point_encode in H. destruct (ec_oncurve c _ _); [|discriminate]. simpl in H.
+    destruct f; try discriminate; injection H as <-; simpl; rewrite ?app_length, ?Lx, ?Ly; f_equal; lia.
+  Qed.
+
+  Lemma point_decode_encode c f P e :
+    length P = (1 + 2 * field_size c)%nat -> hd 0 P = 4 ->
+    (point_encode ec_oncurve) c f P = Ok e -> (point_decode ec_oncurve ec_decompress) c f e = Ok P.
+  Proof.
+    intros L H4 H. destruct (point_shape c P L H4) as (EP & Lx & Ly).
+    unfold point_encode in H.
+    destruct (ec_oncurve c (coord_x c P) (coord_y c P)) eqn:On; [|discriminate]. simpl in H.
+    set (x := coord_x c P) in *. set (y := coord_y c P) in *.
+    unfold point_decode. destruct f; try discriminate; injection H as <-.
+    - (* compressed *)
+      simpl length. rewrite Lx. rewrite Nat.add_1_r, Nat.eqb_refl. cbn [negb].
+      assert (Hhd : (N.eqb (hd 0 ((if N.odd (last y 0) then 3 else 2) :: x)) 2
+                     || N.eqb (hd 0 ((if N.odd (last y 0) then 3 else 2) :: x)) 3)%bool = true)
+        by (destruct (N.odd (last y 0)); reflexivity).
+      rewrite Hhd. cbn [negb].
+      rewrite (ec_decompress_compress c x y On Lx Ly). rewrite EP. reflexivity.
+    - (* uncompressed *)
+      simpl length. rewrite app_length, Lx, Ly.
+      replace (S (field_size c + field_size c)) with (2 * field_size c + 1)%nat by lia.
+      rewrite Nat.eqb_refl. cbn [negb hd]. rewrite N.eqb_refl. cbn [negb].
+      rewrite <- Lx at 1. rewrite slice_after_head. cbn [bind].
+      replace (2 * field_size c + 1)%nat with (length (4 :: x ++ y)) by (simpl; rewrite app_length; lia).
+      rewrite <- Lx. rewrite slice_after_head2. cbn [bind]. rewrite On.
+      rewrite EP. reflexivity.
+    - (* legacy uncompressed *)
+      rewrite app_length, Lx, Ly.
+      replace (field_size c + field_size c)%nat with (2 * field_size c)%nat by lia.
+      rewrite Nat.eqb_refl. cbn [negb].
+      rewrite <- Lx at 1. rewrite slice_head. cbn [bind].
+      replace (2 * field_size c)%nat with (length (x ++ y)) by (rewrite app_length; lia).
+      rewrite <- Lx. rewrite slice_tail. cbn [bind]. rewrite On. rewrite EP. reflexivity.
+  Qed.
+
+
+End PointFormats.
+
 Section EciesTheorems.
   Variable ec_dh : curve -> bytes -> bytes -> option bytes.
   Variable ec_pub : curve -> bytes -> option bytes.
@@ -78,68 +234,7 @@ Section EciesTheorems.
   Hypothesis hmac_len : forall k m, length (hmac_sha256 k m) = 32%nat.
   Hypothesis siv_open_seal : forall k ad p, siv_open k ad (siv_seal k ad p) = Some p.
 
-  (* ---- point formats ---- *)
-  Lemma point_encode_length c f P e : PointEncode c f P = Ok e ->
-    length P = (1 + 2 * field_size c)%nat -> hd 0 P = 4 -> encoding_size c f = Ok (length e).
-  Proof.
-    intros H L H4. destruct (point_shape c P L H4) as (_ & Lx & Ly).
-    unfold point_encode in H. destruct (ec_oncurve c _ _); [|discriminate]. simpl in H.
-    destruct f; try discriminate; injection H as <-; simpl; rewrite ?app_length, ?Lx, ?Ly; f_equal; lia.
-  Qed.
-
-  Lemma point_decode_encode c f P e :
-    length P = (1 + 2 * field_size c)%nat -> hd 0 P = 4 ->
-    PointEncode c f P = Ok e -> PointDecode c f e = Ok P.
-  Proof.
-    intros L H4 H. destruct (point_shape c P L H4) as (EP & Lx & Ly).
-    unfold point_encode in H.
-    destruct (ec_oncurve c (coord_x c P) (coord_y c P)) eqn:On; [|discriminate]. simpl in H.
-    set (x := coord_x c P) in *. set (y := coord_y c P) in *.
-    unfold point_decode. destruct f; try discriminate; injection H as <-.
-    - (* compressed *)
-      simpl length. rewrite Lx. rewrite Nat.add_1_r, Nat.eqb_refl. cbn [negb].
-      assert (Hhd : (N.eqb (hd 0 ((if N.odd (last y 0) then 3 else 2) :: x)) 2
-                     || N.eqb (hd 0 ((if N.odd (last y 0) then 3 else 2) :: x)) 3)%bool = true)
-        by (destruct (N.odd (last y 0)); reflexivity).
-      rewrite Hhd. cbn [negb].
-      rewrite (ec_decompress_compress c x y On Lx Ly). rewrite EP. reflexivity.
-    - (* uncompressed *)
-      simpl length. rewrite app_length, Lx, Ly.
-      replace (S (field_size c + field_size c)) with (2 * field_size c + 1)%nat by lia.
-      rewrite Nat.eqb_refl. cbn [negb hd]. rewrite N.eqb_refl. cbn [negb].
-      rewrite <- Lx at 1. rewrite slice_after_head. cbn [bind].
-      replace (2 * field_size c + 1)%nat with (length (4 :: x ++ y)) by (simpl; rewrite app_length; lia).
-      rewrite <- Lx. rewrite slice_after_head2. cbn [bind]. rewrite On.
-      rewrite EP. reflexivity.
-    - (* legacy uncompressed *)
-      rewrite app_length, Lx, Ly.
-      replace (field_size c + field_size c)%nat with (2 * field_size c)%nat by lia.
-      rewrite Nat.eqb_refl. cbn [negb].
-      rewrite <- Lx at 1. rewrite slice_head. cbn [bind].
-      replace (2 * field_size c)%nat with (length (x ++ y)) by (rewrite app_length; lia).
-      rewrite <- Lx. rewrite slice_tail. cbn [bind]. rewrite On. rewrite EP. reflexivity.
-  Qed.
-
-  Lemma point_decode_never_panics c f e : PointDecode c f e <> Panic.
-  Proof.
-    unfold point_decode. destruct f; try discriminate.
-    - destruct (negb (Nat.eqb _ _)); [discriminate|]. destruct (negb (_ || _)); [discriminate|].
-      destruct (ec_decompress c e); discriminate.
-    - destruct (Nat.eqb_spec (length e) (2 * field_size c + 1)) as [L|]; [|discriminate]. cbn [negb].
-      destruct (negb (N.eqb _ _)); [discriminate|].
-      apply bind_not_panic; [apply slice_not_panic; lia|]. intros x _.
-      apply bind_not_panic; [apply slice_not_panic; lia|]. intros y _.
-      destruct (ec_oncurve c x y); discriminate.
-    - destruct (Nat.eqb_spec (length e) (2 * field_size c)) as [L|]; [|discriminate]. cbn [negb].
-      apply bind_not_panic; [apply slice_not_panic; lia|]. intros x _.
-      apply bind_not_panic; [apply slice_not_panic; lia|]. intros y _.
-      destruct (ec_oncurve c x y); discriminate.
-  Qed.
-
   (* ---- KEM ---- *)
-  Lemma compute_hkdf_never_panics h ikm salt info n : compute_hkdf hkdf h ikm salt info n <> Panic.
-  Proof. unfold compute_hkdf. destruct (Nat.ltb _ _); [discriminate|]. destruct (Nat.ltb _ _); discriminate. Qed.
-
   Lemma ecies_kem_law c h f salt info n skR pkR eph kem key :
     ec_pub c skR = Some pkR ->
     Encapsulate c h f salt info n pkR eph = Ok (kem, key) ->
@@ -151,7 +246,7 @@ Section EciesTheorems.
     assert (sdata = kem /\ v = key) as [-> ->] by (split; congruence).
     destruct (ec_pub_shape _ _ _ Ee) as (L & H4 & On).
     split; [|eapply point_encode_length; eauto].
-    unfold ecies_decapsulate. rewrite (point_decode_encode _ _ _ _ L H4 Hba). cbn [bind].
+    unfold ecies_decapsulate. rewrite (point_decode_encode ec_oncurve ec_decompress ec_decompress_compress _ _ _ _ L H4 Hba). cbn [bind].
     unfold compute_shared_secret in Ha |- *. rewrite On. cbn [negb].
     destruct (negb (ec_oncurve c (coord_x c pkR) (coord_y c pkR))); [discriminate|].
     rewrite (ec_dh_comm c skR eph pkR ephP Hpub Ee).
@@ -159,13 +254,6 @@ Section EciesTheorems.
     assert (s = secret) by congruence. subst s. cbn [bind]. exact Hbba.
   Qed.
 
-  Lemma decapsulate_never_panics c h f salt info n skR kem : Decapsulate c h f salt info n skR kem <> Panic.
-  Proof.
-    unfold ecies_decapsulate. apply bind_not_panic; [apply point_decode_never_panics|]. intros P _.
-    apply bind_not_panic.
-    - unfold compute_shared_secret. destruct (negb _); [discriminate|]. destruct (ec_dh c skR P); discriminate.
-    - intros s _. apply compute_hkdf_never_panics.
-  Qed.
 
   (* ---- DEM ---- *)
   Lemma dem_round_trip d key iv pt body :
@@ -221,38 +309,6 @@ Section EciesTheorems.
       rewrite aes_ctr_involutive. reflexivity.
   Qed.
 
-  Lemma dem_decrypt_never_panics d key body : DemDecrypt d key body <> Panic.
-  Proof.
-    unfold dem_decrypt.
-    destruct (Nat.eqb_spec (length key) (dem_key_size d)) as [Lk|]; [|discriminate]. cbn [negb].
-    destruct d; try discriminate.
-    1-2: (
-      destruct (Nat.ltb_spec (length body) (12 + 16)) as [|Hl]; [discriminate|];
-      apply bind_not_panic; [apply slice_not_panic; lia|]; intros iv _;
-      apply bind_not_panic; [apply slice_not_panic; lia|]; intros b _;
-      destruct (gcm_open key iv [] b); discriminate).
-    - destruct (siv_open key [] body); discriminate.
-    - simpl in Lk. apply bind_not_panic; [apply slice_not_panic; simpl; lia|]. intros ka _.
-      apply bind_not_panic; [apply slice_not_panic; simpl; lia|]. intros kh _.
-      destruct (Nat.ltb_spec (length body) (16 + dem_tag_size AES128_CTR_HMAC_SHA256)) as [|Hl]; [discriminate|].
-      simpl in Hl.
-      apply bind_not_panic; [apply slice_not_panic; simpl; lia|]. intros payload Hp.
-      apply bind_not_panic; [apply slice_not_panic; simpl; lia|]. intros tag _.
-      destruct (negb (beq _ _)); [discriminate|].
-      destruct (Nat.ltb_spec (length payload) 16) as [|Hl2]; [discriminate|].
-      apply bind_not_panic; [apply slice_not_panic; lia|]. intros iv _.
-      apply bind_not_panic; [apply slice_not_panic; lia|]. intros b _. discriminate.
-    - simpl in Lk. apply bind_not_panic; [apply slice_not_panic; simpl; lia|]. intros ka _.
-      apply bind_not_panic; [apply slice_not_panic; simpl; lia|]. intros kh _.
-      destruct (Nat.ltb_spec (length body) (16 + dem_tag_size AES256_CTR_HMAC_SHA256)) as [|Hl]; [discriminate|].
-      simpl in Hl.
-      apply bind_not_panic; [apply slice_not_panic; simpl; lia|]. intros payload Hp.
-      apply bind_not_panic; [apply slice_not_panic; simpl; lia|]. intros tag _.
-      destruct (negb (beq _ _)); [discriminate|].
-      destruct (Nat.ltb_spec (length payload) 16) as [|Hl2]; [discriminate|].
-      apply bind_not_panic; [apply slice_not_panic; lia|]. intros iv _.
-      apply bind_not_panic; [apply slice_not_panic; lia|]. intros b _. discriminate.
-  Qed.
 
   (* ---- the scheme ---- *)
   Theorem ecies_round_trip c h f d salt prefix skR pkR eph iv info pt ct :
@@ -275,32 +331,7 @@ Section EciesTheorems.
     eapply dem_round_trip; eauto.
   Qed.
 
-  Theorem ecies_decrypt_never_panics c h f d salt prefix skR ct info :
-    Decrypt c h f d salt prefix skR ct info <> Panic.
-  Proof.
-    unfold ecies_decrypt. destruct (negb (primitive_supported c f d)); [discriminate|].
-    destruct (Nat.ltb_spec (length ct) (length prefix)) as [|Lc]; [discriminate|].
-    destruct (slice_split (length prefix) ct Lc) as (pf & rest & -> & Lpf & S1 & S2).
-    rewrite S1, S2. cbn [bind]. destruct (negb (beq prefix pf)); [discriminate|].
-    unfold ecies_raw_decrypt. apply bind_not_panic; [apply encoding_size_never_panics|]. intros hs _.
-    destruct (Nat.ltb_spec (length rest) hs) as [|Lr]; [discriminate|].
-    destruct (slice_split hs rest Lr) as (kem & body & -> & Lk & S3 & S4).
-    rewrite S3, S4. cbn [bind].
-    apply bind_not_panic; [apply decapsulate_never_panics|]. intros key _.
-    apply dem_decrypt_never_panics.
-  Qed.
 
-  (* a different output prefix is rejected outright *)
-  Theorem ecies_binding_prefix c h f d salt prefix skR prefix' rest info :
-    length prefix' = length prefix -> prefix' <> prefix ->
-    Decrypt c h f d salt prefix skR (prefix' ++ rest) info = Err.
-  Proof.
-    intros L Hne. unfold ecies_decrypt. destruct (negb (primitive_supported c f d)); [reflexivity|].
-    destruct (Nat.ltb_spec (length (prefix' ++ rest)) (length prefix)) as [|_]; [reflexivity|].
-    rewrite <- L. rewrite slice_head. cbn [bind].
-    assert (E : beq prefix prefix' = false) by (apply beq_false; congruence).
-    rewrite E. reflexivity.
-  Qed.
 End EciesTheorems.
 
 (* ------------------------------------------------------------------ *)
